@@ -214,6 +214,8 @@ func runC13(src sim.Source, o Opts) *Result {
 	}
 	// special handler kinds
 	if !check("no route", world.Probe{Method: "GET", Path: "/nothing/here"}, model.KNoRoute, nil) ||
+		!check("no route (OPTIONS request for a path no method serves, automatic replies on)", world.Probe{Method: "OPTIONS", Path: "/nothing/here"}, model.KNoRoute, nil) ||
+		!check("no route (method without routes, 405 on)", world.Probe{Method: "PURGE", Path: "/nothing/here"}, model.KNoRoute, nil) ||
 		!check("no method", world.Probe{Method: "POST", Path: "/r0/v"}, model.KNoMethod, nil) ||
 		!check("options", world.Probe{Method: "OPTIONS", Path: "/r0/v"}, model.KOptions, nil) ||
 		!check("redirect", world.Probe{Method: "GET", Path: "/r0/v/"}, model.KRedirect, nil) {
